@@ -3,8 +3,8 @@ import os, sys, time, json, importlib, traceback, multiprocessing, signal, rando
 import z3
 
 VERIF = os.path.dirname(os.path.dirname(os.path.abspath(__file__)))
-EVID = os.path.join(VERIF, 'evidence')
-REPLAYS = os.path.join(VERIF, 'replays')
+EVID = os.environ.get('VERIF_EVIDENCE_DIR', os.path.join(VERIF, 'evidence'))
+REPLAYS = os.environ.get('VERIF_REPLAYS_DIR', os.path.join(VERIF, 'replays'))
 KNOWN = os.path.join(VERIF, 'known_findings.txt')
 
 EXIT_OK, EXIT_VIOLATION, EXIT_HARNESS = 0, 1, 3
